@@ -208,6 +208,52 @@ theorem dupScan_iff_dup (r : Node) (others : List Node) :
   rw [← hp.nodup_iff, ← h]
   simp
 
+/-- **The node sort's tie-breaking does not matter.** `NodeSorted N0 P` says `P` is *a* result
+of `sort.Sort(on)` with the root pinned (any correct algorithm, identical nodes in any
+relative order); running the rest of `Canon` (`canonWith`: renumber, scan, BFS, renumber) from
+it gives exactly what the model – which uses a stable insertion sort – gives. -/
+def C13_sort_choice_irrelevant : Prop :=
+  ∀ (g : Graph) (P : List (Node × Nat)), g.WF = true → NodeSorted (g.nodes.map sortErrors) P →
+    canonWith P g.edges = canon g
+
+theorem canon_sort_choice_irrelevant : C13_sort_choice_irrelevant := by
+  intro g P hwf hP
+  unfold canon
+  exact canonWith_eq_canonSorted hP (by simpa using edgesIn_of_wf hwf)
+
+/-- In `canonBFS` the scratch sort has a unique result whenever it is used (no two equal nodes). -/
+theorem scratch_sort_unique {sc K : List (Node × Nat)} (hs : Sorted pairLess K) (p : K ~ sc)
+    (nd : (sc.map Prod.fst).Nodup) : K = sortBy pairLess sc := by
+  apply sorted_perm_unique _ hs (sortBy_sorted pairLess_strictWeak sc) (p.trans (sortBy_perm sc).symm)
+  intro a b ha hb hab hba
+  have hk : a.1 = b.1 := nodeLess_strictTotal.tri _ _ hab hba
+  exact inj_on_of_nodup_map nd (p.mem_iff.mp ha) (mem_sortBy.mp hb) hk
+
+/-- The model reports a panic exactly when an edge endpoint is not a node (Go: index out of
+range in `renumber`); in particular the loop bound `1 + len(edges)` the model gives
+`canonBFS` is never exhausted. -/
+def C13_panic_iff_not_wf : Prop :=
+  ∀ g : Graph, (∃ s, canon g = .panic s) ↔ g.WF = false
+
+theorem canon_panic_iff_not_wf : C13_panic_iff_not_wf := by
+  intro g
+  constructor
+  · rintro ⟨s, hs⟩
+    cases hwf : g.WF with
+    | false => rfl
+    | true =>
+      exfalso
+      unfold canon at hs
+      exact canonSorted_no_panic (by simpa using edgesIn_of_wf hwf) s hs
+  · intro hwf
+    refine ⟨"graph.go:oldToNew[e.From]", ?_⟩
+    unfold canon
+    apply canonSorted_panic_of_not_edgesIn
+    intro hE
+    have := wf_of_edgesIn (g := g) (by simpa using hE)
+    rw [hwf] at this
+    cases this
+
 /-! ## Non-vacuity: the hypotheses are satisfiable, also with duplicates of the root -/
 
 /-- The F11 witness: root `r` (rank 9), `a` (rank 5) and a second copy of `r`;
@@ -255,9 +301,38 @@ example : canon gErr = .ok
       edges := [⟨0, 2, [42], 0⟩, ⟨0, 2, [42], 1⟩, ⟨1, 0, [], 0⟩, ⟨2, 1, [], 0⟩, ⟨2, 2, [], 0⟩] } := by
   decide
 
+/-- A different (unstable) result of the node sort for `gF11'`: the two identical nodes `r`
+swapped. `canon_sort_choice_irrelevant` applies to it. -/
+example : NodeSorted (gF11'.nodes.map sortErrors) [(⟨9, []⟩, 0), (⟨5, []⟩, 2), (⟨9, []⟩, 1)] where
+  perm := by decide
+  head := by decide
+  sorted := by decide
+
+example : canon { nodes := [⟨1, []⟩], edges := [⟨0, 1, [], 0⟩] } = .panic "graph.go:oldToNew[e.From]" := by
+  decide
+
 /-- Both failure conditions of `canonBFS` occur (so "fails for both" is not vacuous either). -/
 example : canon { nodes := [⟨1, []⟩, ⟨1, []⟩], edges := [] } = .err := by decide            -- unreachable
 example : canon { nodes := [⟨1, []⟩, ⟨2, []⟩, ⟨2, []⟩], edges := [⟨0, 1, [], 0⟩, ⟨0, 2, [], 0⟩] } = .err := by
   decide                                                                                      -- duplicate direct dependency
 
 end DepsDev.Props.C13
+
+/-
+TIES (DESIGN 3.3) — what each theorem rests on.
+
+canon_relabel_invariant, canon_idempotent, canon_preserves, canon_output_is_relabel,
+canon_panic_iff_not_wf:
+  model: Resolve.GraphCanon.{canon, canonSorted, stage1, sortErrors, sortNodes, mapping,
+         renumberEdges, renumberEdge, dupScan, dupScanFrom, bfsStage, canonBFS, bfsLoop, adjacency,
+         scratch, kids, dupKids, hasAdjDup, reorderNodes, sortBy, insertBy,
+         Node.cmp, NodeError.cmp, errsCmp, bytesCmp, Edge.less}      (Model/Resolve/Graph.lean)
+  tie:   correspondence stream `C13 gcanon` (every generated op: Go result = model result),
+         `C13 ncmp` (Node.cmp = Node.Compare on a pool), `C13 vkorder` / `C13 typeorder`
+         (the rank encoding's assumption: the external comparators are strict total orders).
+  Gen:   none.
+canon_sort_choice_irrelevant, node_sort_unique, edge_sort_unique, error_sort_unique,
+scratch_sort_unique, dupScan_iff_dup:
+  same model definitions; they discharge the "modelled, not verified" item `sort.Sort/sort.Slice`
+  (any correct sort gives the model's result) and show that the F11 scan is complete.
+-/
